@@ -277,6 +277,10 @@ type CrashSeed struct {
 	// losers undone) and the history proper runs in the NEW session. Histories start from a recovered
 	// database this way, not only from a freshly created one.
 	Prologue []HOp
+	// CleanIdle: instead of dying after the prologue the engine is shut down cleanly, opened and shut down
+	// again without a single statement (an idle session), and opened for the history: what the log and the
+	// LSN counter carry across clean restarts
+	CleanIdle bool
 }
 
 // HistoryRun is the result of executing one history under the recorder.
@@ -359,7 +363,20 @@ func RunHistory(seed *CrashSeed, ops []HOp) *HistoryRun {
 		for t := range ptx {
 			model.Abort(t) // in flight when the process died: losers of the restart
 		}
-		db.Kill()
+		if seed.CleanIdle {
+			if f := db.Shutdown(); f != nil {
+				panic("prologue shutdown: " + f.String())
+			}
+			idle, _, f2 := OpenRecorded(path, seed.MemKB, false)
+			if f2 != nil {
+				panic("prologue idle session: " + f2.String())
+			}
+			if f := idle.Shutdown(); f != nil {
+				panic("prologue idle shutdown: " + f.String())
+			}
+		} else {
+			db.Kill()
+		}
 		db, rec, f = OpenRecorded(path, seed.MemKB, false)
 		if f != nil {
 			hr.Fail, hr.FailOp = f, "restart after the prologue"
